@@ -319,6 +319,9 @@ func genC15(g *Gen) {
 		{"pad x 0 x", "padl x 0 x", "padr x 0 x", "pad x61 -5 x", "padl x61 1 x", "padr x61 0 x", "pad x 7 x2d", "pad x 1000 xc3b6", "padl x 1000 x2d20", "padr x 999 xc3b661"},
 		{"substr x 0 0", "substr x -1 -1", "substr x 1 1", "substr x 0 -1", "substr x61 1 0", "substr x61 1 5", "substr x61 2 0", "substr x61 -1 -1", "substr x61 -2 1",
 			"substr x6162 0 1000000", "substr x6162 -1000000 1", "substr x6162 1000000 -1000000", "substr x6162 -1 1000000", "substr x6162 0 -1000000"},
+		// offsets, lengths and indexes at the ends of the int range (sums and negations of them overflow)
+		{"substr x616263 0 9223372036854775807", "substr x616263 0 9223372036854775806", "substr x616263 0 9223372036854775805", "substr x616263 0 4611686018427387904", "substr x616263 0 4611686018427387903", "substr x616263 0 -9223372036854775807", "substr x616263 0 -9223372036854775808", "substr x616263 0 -4611686018427387904", "substr x616263 1 9223372036854775807", "substr x616263 1 9223372036854775806", "substr x616263 1 9223372036854775805", "substr x616263 1 4611686018427387904", "substr x616263 1 4611686018427387903", "substr x616263 1 -9223372036854775807", "substr x616263 1 -9223372036854775808", "substr x616263 1 -4611686018427387904", "substr x616263 2 9223372036854775807", "substr x616263 2 9223372036854775806", "substr x616263 2 9223372036854775805", "substr x616263 2 4611686018427387904", "substr x616263 2 4611686018427387903", "substr x616263 2 -9223372036854775807", "substr x616263 2 -9223372036854775808", "substr x616263 2 -4611686018427387904", "substr x616263 -1 9223372036854775807", "substr x616263 -1 9223372036854775806", "substr x616263 -1 9223372036854775805", "substr x616263 -1 4611686018427387904", "substr x616263 -1 4611686018427387903", "substr x616263 -1 -9223372036854775807", "substr x616263 -1 -9223372036854775808", "substr x616263 -1 -4611686018427387904", "substr x616263 -3 9223372036854775807", "substr x616263 -3 9223372036854775806", "substr x616263 -3 9223372036854775805", "substr x616263 -3 4611686018427387904", "substr x616263 -3 4611686018427387903", "substr x616263 -3 -9223372036854775807", "substr x616263 -3 -9223372036854775808", "substr x616263 -3 -4611686018427387904", "substr x616263 9223372036854775807 9223372036854775807", "substr x616263 9223372036854775807 9223372036854775806", "substr x616263 9223372036854775807 9223372036854775805", "substr x616263 9223372036854775807 4611686018427387904", "substr x616263 9223372036854775807 4611686018427387903", "substr x616263 9223372036854775807 -9223372036854775807", "substr x616263 9223372036854775807 -9223372036854775808", "substr x616263 9223372036854775807 -4611686018427387904", "substr x616263 9223372036854775806 9223372036854775807", "substr x616263 9223372036854775806 9223372036854775806", "substr x616263 9223372036854775806 9223372036854775805", "substr x616263 9223372036854775806 4611686018427387904", "substr x616263 9223372036854775806 4611686018427387903", "substr x616263 9223372036854775806 -9223372036854775807", "substr x616263 9223372036854775806 -9223372036854775808", "substr x616263 9223372036854775806 -4611686018427387904", "substr x616263 -9223372036854775807 9223372036854775807", "substr x616263 -9223372036854775807 9223372036854775806", "substr x616263 -9223372036854775807 9223372036854775805", "substr x616263 -9223372036854775807 4611686018427387904", "substr x616263 -9223372036854775807 4611686018427387903", "substr x616263 -9223372036854775807 -9223372036854775807", "substr x616263 -9223372036854775807 -9223372036854775808", "substr x616263 -9223372036854775807 -4611686018427387904", "substr x616263 -9223372036854775808 9223372036854775807", "substr x616263 -9223372036854775808 9223372036854775806", "substr x616263 -9223372036854775808 9223372036854775805", "substr x616263 -9223372036854775808 4611686018427387904", "substr x616263 -9223372036854775808 4611686018427387903", "substr x616263 -9223372036854775808 -9223372036854775807", "substr x616263 -9223372036854775808 -9223372036854775808", "substr x616263 -9223372036854775808 -4611686018427387904", "substr x616263 9223372036854775807 0", "substr x616263 9223372036854775806 0", "substr x616263 9223372036854775805 0", "substr x616263 4611686018427387904 0", "substr x616263 4611686018427387903 0", "substr x616263 -9223372036854775807 0", "substr x616263 -9223372036854775808 0", "substr x616263 -4611686018427387904 0", "substr x616263 9223372036854775807 1", "substr x616263 9223372036854775806 1", "substr x616263 9223372036854775805 1", "substr x616263 4611686018427387904 1", "substr x616263 4611686018427387903 1", "substr x616263 -9223372036854775807 1", "substr x616263 -9223372036854775808 1", "substr x616263 -4611686018427387904 1", "substr x616263 9223372036854775807 -1", "substr x616263 9223372036854775806 -1", "substr x616263 9223372036854775805 -1", "substr x616263 4611686018427387904 -1", "substr x616263 4611686018427387903 -1", "substr x616263 -9223372036854775807 -1", "substr x616263 -9223372036854775808 -1", "substr x616263 -4611686018427387904 -1", "substr x616263 9223372036854775807 3", "substr x616263 9223372036854775806 3", "substr x616263 9223372036854775805 3", "substr x616263 4611686018427387904 3", "substr x616263 4611686018427387903 3", "substr x616263 -9223372036854775807 3", "substr x616263 -9223372036854775808 3", "substr x616263 -4611686018427387904 3", "substr x616263 9223372036854775807 -3", "substr x616263 9223372036854775806 -3", "substr x616263 9223372036854775805 -3", "substr x616263 4611686018427387904 -3", "substr x616263 4611686018427387903 -3", "substr x616263 -9223372036854775807 -3", "substr x616263 -9223372036854775808 -3", "substr x616263 -4611686018427387904 -3", "substr x 0 9223372036854775807", "substr x 0 9223372036854775806", "substr x 0 9223372036854775805", "substr x 0 4611686018427387904", "substr x 0 4611686018427387903", "substr x 0 -9223372036854775807", "substr x 0 -9223372036854775808", "substr x 0 -4611686018427387904", "substr x 1 9223372036854775807", "substr x 1 9223372036854775806", "substr x 1 9223372036854775805", "substr x 1 4611686018427387904", "substr x 1 4611686018427387903", "substr x 1 -9223372036854775807", "substr x 1 -9223372036854775808", "substr x 1 -4611686018427387904", "substr x 2 9223372036854775807", "substr x 2 9223372036854775806", "substr x 2 9223372036854775805", "substr x 2 4611686018427387904", "substr x 2 4611686018427387903", "substr x 2 -9223372036854775807", "substr x 2 -9223372036854775808", "substr x 2 -4611686018427387904", "substr x -1 9223372036854775807", "substr x -1 9223372036854775806", "substr x -1 9223372036854775805", "substr x -1 4611686018427387904", "substr x -1 4611686018427387903", "substr x -1 -9223372036854775807", "substr x -1 -9223372036854775808", "substr x -1 -4611686018427387904", "substr x -3 9223372036854775807", "substr x -3 9223372036854775806", "substr x -3 9223372036854775805", "substr x -3 4611686018427387904", "substr x -3 4611686018427387903", "substr x -3 -9223372036854775807", "substr x -3 -9223372036854775808", "substr x -3 -4611686018427387904", "substr x 9223372036854775807 9223372036854775807", "substr x 9223372036854775807 9223372036854775806", "substr x 9223372036854775807 9223372036854775805", "substr x 9223372036854775807 4611686018427387904", "substr x 9223372036854775807 4611686018427387903", "substr x 9223372036854775807 -9223372036854775807", "substr x 9223372036854775807 -9223372036854775808", "substr x 9223372036854775807 -4611686018427387904", "substr x 9223372036854775806 9223372036854775807", "substr x 9223372036854775806 9223372036854775806", "substr x 9223372036854775806 9223372036854775805", "substr x 9223372036854775806 4611686018427387904", "substr x 9223372036854775806 4611686018427387903", "substr x 9223372036854775806 -9223372036854775807", "substr x 9223372036854775806 -9223372036854775808", "substr x 9223372036854775806 -4611686018427387904"},
+		{"substr x -9223372036854775807 9223372036854775807", "substr x -9223372036854775807 9223372036854775806", "substr x -9223372036854775807 9223372036854775805", "substr x -9223372036854775807 4611686018427387904", "substr x -9223372036854775807 4611686018427387903", "substr x -9223372036854775807 -9223372036854775807", "substr x -9223372036854775807 -9223372036854775808", "substr x -9223372036854775807 -4611686018427387904", "substr x -9223372036854775808 9223372036854775807", "substr x -9223372036854775808 9223372036854775806", "substr x -9223372036854775808 9223372036854775805", "substr x -9223372036854775808 4611686018427387904", "substr x -9223372036854775808 4611686018427387903", "substr x -9223372036854775808 -9223372036854775807", "substr x -9223372036854775808 -9223372036854775808", "substr x -9223372036854775808 -4611686018427387904", "substr x 9223372036854775807 0", "substr x 9223372036854775806 0", "substr x 9223372036854775805 0", "substr x 4611686018427387904 0", "substr x 4611686018427387903 0", "substr x -9223372036854775807 0", "substr x -9223372036854775808 0", "substr x -4611686018427387904 0", "substr x 9223372036854775807 1", "substr x 9223372036854775806 1", "substr x 9223372036854775805 1", "substr x 4611686018427387904 1", "substr x 4611686018427387903 1", "substr x -9223372036854775807 1", "substr x -9223372036854775808 1", "substr x -4611686018427387904 1", "substr x 9223372036854775807 -1", "substr x 9223372036854775806 -1", "substr x 9223372036854775805 -1", "substr x 4611686018427387904 -1", "substr x 4611686018427387903 -1", "substr x -9223372036854775807 -1", "substr x -9223372036854775808 -1", "substr x -4611686018427387904 -1", "substr x 9223372036854775807 3", "substr x 9223372036854775806 3", "substr x 9223372036854775805 3", "substr x 4611686018427387904 3", "substr x 4611686018427387903 3", "substr x -9223372036854775807 3", "substr x -9223372036854775808 3", "substr x -4611686018427387904 3", "substr x 9223372036854775807 -3", "substr x 9223372036854775806 -3", "substr x 9223372036854775805 -3", "substr x 4611686018427387904 -3", "substr x 4611686018427387903 -3", "substr x -9223372036854775807 -3", "substr x -9223372036854775808 -3", "substr x -4611686018427387904 -3", "substr x61 0 9223372036854775807", "substr x61 0 9223372036854775806", "substr x61 0 9223372036854775805", "substr x61 0 4611686018427387904", "substr x61 0 4611686018427387903", "substr x61 0 -9223372036854775807", "substr x61 0 -9223372036854775808", "substr x61 0 -4611686018427387904", "substr x61 1 9223372036854775807", "substr x61 1 9223372036854775806", "substr x61 1 9223372036854775805", "substr x61 1 4611686018427387904", "substr x61 1 4611686018427387903", "substr x61 1 -9223372036854775807", "substr x61 1 -9223372036854775808", "substr x61 1 -4611686018427387904", "substr x61 2 9223372036854775807", "substr x61 2 9223372036854775806", "substr x61 2 9223372036854775805", "substr x61 2 4611686018427387904", "substr x61 2 4611686018427387903", "substr x61 2 -9223372036854775807", "substr x61 2 -9223372036854775808", "substr x61 2 -4611686018427387904", "substr x61 -1 9223372036854775807", "substr x61 -1 9223372036854775806", "substr x61 -1 9223372036854775805", "substr x61 -1 4611686018427387904", "substr x61 -1 4611686018427387903", "substr x61 -1 -9223372036854775807", "substr x61 -1 -9223372036854775808", "substr x61 -1 -4611686018427387904", "substr x61 -3 9223372036854775807", "substr x61 -3 9223372036854775806", "substr x61 -3 9223372036854775805", "substr x61 -3 4611686018427387904", "substr x61 -3 4611686018427387903", "substr x61 -3 -9223372036854775807", "substr x61 -3 -9223372036854775808", "substr x61 -3 -4611686018427387904", "substr x61 9223372036854775807 9223372036854775807", "substr x61 9223372036854775807 9223372036854775806", "substr x61 9223372036854775807 9223372036854775805", "substr x61 9223372036854775807 4611686018427387904", "substr x61 9223372036854775807 4611686018427387903", "substr x61 9223372036854775807 -9223372036854775807", "substr x61 9223372036854775807 -9223372036854775808", "substr x61 9223372036854775807 -4611686018427387904", "substr x61 9223372036854775806 9223372036854775807", "substr x61 9223372036854775806 9223372036854775806", "substr x61 9223372036854775806 9223372036854775805", "substr x61 9223372036854775806 4611686018427387904", "substr x61 9223372036854775806 4611686018427387903", "substr x61 9223372036854775806 -9223372036854775807", "substr x61 9223372036854775806 -9223372036854775808", "substr x61 9223372036854775806 -4611686018427387904", "substr x61 -9223372036854775807 9223372036854775807", "substr x61 -9223372036854775807 9223372036854775806", "substr x61 -9223372036854775807 9223372036854775805", "substr x61 -9223372036854775807 4611686018427387904", "substr x61 -9223372036854775807 4611686018427387903", "substr x61 -9223372036854775807 -9223372036854775807", "substr x61 -9223372036854775807 -9223372036854775808", "substr x61 -9223372036854775807 -4611686018427387904", "substr x61 -9223372036854775808 9223372036854775807", "substr x61 -9223372036854775808 9223372036854775806", "substr x61 -9223372036854775808 9223372036854775805", "substr x61 -9223372036854775808 4611686018427387904", "substr x61 -9223372036854775808 4611686018427387903", "substr x61 -9223372036854775808 -9223372036854775807", "substr x61 -9223372036854775808 -9223372036854775808", "substr x61 -9223372036854775808 -4611686018427387904", "substr x61 9223372036854775807 0", "substr x61 9223372036854775806 0", "substr x61 9223372036854775805 0", "substr x61 4611686018427387904 0", "substr x61 4611686018427387903 0", "substr x61 -9223372036854775807 0", "substr x61 -9223372036854775808 0", "substr x61 -4611686018427387904 0", "substr x61 9223372036854775807 1", "substr x61 9223372036854775806 1", "substr x61 9223372036854775805 1", "substr x61 4611686018427387904 1", "substr x61 4611686018427387903 1", "substr x61 -9223372036854775807 1", "substr x61 -9223372036854775808 1", "substr x61 -4611686018427387904 1", "substr x61 9223372036854775807 -1", "substr x61 9223372036854775806 -1", "substr x61 9223372036854775805 -1", "substr x61 4611686018427387904 -1", "substr x61 4611686018427387903 -1", "substr x61 -9223372036854775807 -1", "substr x61 -9223372036854775808 -1", "substr x61 -4611686018427387904 -1", "substr x61 9223372036854775807 3", "substr x61 9223372036854775806 3", "substr x61 9223372036854775805 3", "substr x61 4611686018427387904 3", "substr x61 4611686018427387903 3", "substr x61 -9223372036854775807 3", "substr x61 -9223372036854775808 3", "substr x61 -4611686018427387904 3", "substr x61 9223372036854775807 -3", "substr x61 9223372036854775806 -3", "substr x61 9223372036854775805 -3", "substr x61 4611686018427387904 -3", "substr x61 4611686018427387903 -3", "substr x61 -9223372036854775807 -3", "substr x61 -9223372036854775808 -3", "substr x61 -4611686018427387904 -3", "split x616263 9223372036854775807", "split x616263 9223372036854775806", "split x616263 9223372036854775805", "split x616263 4611686018427387904", "split x616263 4611686018427387903", "split x616263 -9223372036854775807", "split x616263 -9223372036854775808", "split x616263 -4611686018427387904", "split x 9223372036854775807", "split x 9223372036854775806", "split x 9223372036854775805", "split x 4611686018427387904", "split x 4611686018427387903", "split x -9223372036854775807", "split x -9223372036854775808", "split x -4611686018427387904"},
 		{"split x 0", "split x -1", "split x 1", "split xc3b6 0", "split xc3b6 1", "split xe282ac 0", "split xe282ac 1", "split xe282ac 2", "split xf09f9880 1", "split xf09f9880 2", "split xff 0", "split x61c3 1"},
 		{"unwrap x x", "unwrap x x27", "unwrap x27 x27", "unwrap x2727 x27", "unwrap x272727 x27", "unwrap x276162 x27", "unwrap x27612762 x27", "unwrap x612761 x27", "unwrap x6127 x27",
 			"unwrap x61 x6161", "unwrap x6161 x6161", "unwrap x616161 x6161", "unwrap x61616161 x6161", "unwrap xc3b661c3b6 xc3", "unwrap xc3b661c3b6 xb6", "unwrap xc3b661c3b6 xc3b6",
